@@ -1,11 +1,50 @@
 N = {"quick": 400, "thorough": 20000}
 EXHAUSTIVE = {"quick": False, "thorough": True}
-RULE = "wip"
-ASSUMPTIONS = []
+RULE = ("random value curves of 1-40 (thorough 1-60) points over few levels (rising, falling, oscillating, plateaus, exact recoveries to the previous "
+        "peak, dips followed by peak / peak+1, random walk; values <= 4 significant digits, scale <= 2; timestamps regular, equal, irregular and "
+        "non-monotone; ~6 % curves with non-positive peaks for the model only) driven through one of: a bare DrawdownGenerator (default or init) with "
+        "Max/Mean generators, TearSheetAssetGenerator (init + update_from_balance), TearSheetGenerator (update_from_position with the PnL deltas of the "
+        "curve); `gen` (generate on a clone) after 0/10/30 % of the points and at the end of 80 % of the cases, `gen!` (mutating generate) occasionally. "
+        "Thorough additionally enumerates every curve of length 1-5 over the levels {1,2,3,4} (1364 curves) through the bare generator and the asset "
+        "tear sheet. A case is distinct by the SHA-1 of its op lines and non-trivial when the implementation's observation block changes at least once")
+ASSUMPTIONS = [
+    "positive running maxima (first value > 0): the spec driver is silent on other curves; the refinement theorems themselves hold for every curve",
+    "Decimal arithmetic is exact rational arithmetic: depths ((peak-v)/peak) and mean depths are compared to 1e-18; overflow/rounding of rust_decimal not modelled",
+    "mean duration is an i64 millisecond count updated with truncating division: it equals the exact average only up to (n-1)/2 ms (theorem mean_duration_near_average); the spec driver prints that integer incremental average",
+    "theorems about TearSheet*Generator::generate concern the first generate after an update history (backtest()/trading_summary_generator clone the generator); generate mutates the mean/max generators, so a repeated call on the same generator counts the in-progress drawdown again (modelled and checked by correspondence, recorded as an `example`, not part of the spec)",
+    "the instrument tear sheet's returns data set (PnLReturns.total/losses, C16/C17) is kept numerically trivial by the harness (entry notional 1e27): with unit notional rust_decimal's Decimal::sqrt can panic inside Dispersion::update before the drawdown code runs",
+]
 SOURCE_FILES = ["barter/src/statistic/metric/drawdown/mod.rs", "barter/src/statistic/metric/drawdown/max.rs",
                 "barter/src/statistic/metric/drawdown/mean.rs", "barter/src/statistic/summary/asset.rs",
-                "barter/src/statistic/summary/instrument.rs"]
+                "barter/src/statistic/summary/instrument.rs", "barter/src/statistic/summary/pnl.rs",
+                "barter/src/statistic/algorithm.rs"]
+
+
+def signature(ops, k, key, impl_line, spec_line):
+    mode = ops[0].split()[0] if ops else "?"
+    op = ops[k].split()[0] if k < len(ops) else "?"
+    return f"clause={key} mode={mode} op={op}"
+
+
 CLAIM = True
-TECHNIQUE = "wip"
-LEVEL_TEXT = "wip"
-LEVEL_NOTE = "wip"
+TECHNIQUE = ("Lean 4: refinement of the online generators to a declarative peak-to-trough decomposition (takeWhile/dropWhile over running maxima) by "
+             "induction over the curve with a canonical-state invariant; first-maximum characterisation for Max; Welford invariant over Q and an "
+             "integer error-bound invariant for Mean; correspondence of the model with the real generators and both tear sheets")
+LEVEL_TEXT = ("Proof. Lean theorems over the executable model of DrawdownGenerator/MaxDrawdownGenerator/MeanDrawdownGenerator and the tear-sheet feeding "
+              "code (lean/BarterModel/Props/C18.lean), for every finite timed curve (no bound on length, no assumption on times, plateaus and exact "
+              "recoveries included): the drawdowns returned by update are exactly the completed drawdowns of the peak-to-trough decomposition, in order, "
+              "with value = largest relative decline of the segment, start = the running maximum's time, end = time of the exceeding point "
+              "(completed_drawdowns, update_returns_newly_completed, completed_segment); generate reports exactly the decline in progress "
+              "(current_drawdown, current_segment); under a positive peak the depth is the relative decline at the trough and is non-zero iff some point "
+              "is strictly below the peak (depth_is_peak_to_trough); the Max generator holds the first deepest drawdown (max_is_largest_completed, "
+              "specMax_is_largest, reported_depth_pos); the Mean generator holds the count, the exact average depth and the integer-ms average duration "
+              "(mean_is_average_completed), the latter within (n-1)/2 ms of the exact average (mean_duration_near_average); the first generate of a "
+              "tear sheet reports current, and max/mean over completed + current (first_generate_report); TearSheetAssetGenerator::init is the first "
+              "point of the curve (asset_init_is_first_point) and TearSheetGenerator feeds the cumulative PnL curve (instrument_feeds_pnl_curve). "
+              "All full strength; no _partial theorem. The model is tied to the code by running the same curves through the real generators and both "
+              "tear sheets on every run.")
+LEVEL_NOTE = ("Trusted: Lean kernel; axioms propext/Classical.choice/Quot.sound only; the hand-written model (tied by sampled correspondence: 400 quick / "
+              "20k random + all 1364 curves of length <=5 over 4 levels thorough); harness and driver. Exact rationals instead of rust_decimal (1e-18 "
+              "tolerance on division-derived fields). The mean duration is an integer incremental average, not the exact average (bounded deviation "
+              "proved). Repeated generate() on the same tear sheet double-counts the in-progress drawdown: outside the property (first generate), "
+              "recorded as an example and exercised by correspondence.")
